@@ -41,7 +41,16 @@ def hrps():
 
 
 # ---------------------------------------------------------------- clause A: encode/decode agreement
+import json as _json
+import os as _os
+with open(_os.path.join(_os.path.dirname(_os.path.dirname(_os.path.abspath(__file__))), "ref", "letterfree_addrs.json")) as _f:
+    LETTERFREE = _json.load(_f)   # legal addresses without a single letter (HRP, version and data characters all digits/punctuation)
+
+
 def enum_pairs(tier):
+    for e in LETTERFREE:
+        prog = bytes.fromhex(e["prog"])
+        yield {"hrp": e["hrp"], "ver": e["ver"], "n": len(prog), "prog_hex": e["prog"], "a": 0, "b": 1}
     reps = 3 if tier == "quick" else 8
     for ver in range(0, 18):
         for n in range(0, 43):
@@ -62,7 +71,7 @@ def gen_pairs(tier):
 def check_pair(case, ctx):
     B, H = _impl()
     hrp, ver, n = case["hrp"], case["ver"], case["n"]
-    prog = prog_bytes(n, case["a"], case["b"])
+    prog = bytes.fromhex(case["prog_hex"]) if case.get("prog_hex") else prog_bytes(n, case["a"], case["b"])
     want = R.segwit_encode(hrp, ver, prog)
     st_, got = call(B.encode, hrp, ver, list(prog))
     st_b, got_b = call(B.encode, hrp=hrp, witver=ver, witprog=prog)      # bytes program, keyword form
